@@ -22,6 +22,8 @@ import os
 import shutil
 from pathlib import Path
 
+from hypothesis import strategies as st
+
 from vlib import scratchdir
 from vlib.gen import files3 as G
 from vlib.harness import exception_signature, short
@@ -243,6 +245,17 @@ def replay(case):
                 fresh_by_target[t].append((content, fresh, space))
                 if mtime not in hashed_at[t]:
                     hashed_at[t].append(mtime)
+                # what the hash of a link / a directory depends on was "seen" at this moment too:
+                # the file a link points to and the files below a directory can later be put back
+                # to exactly the mtime they had when the link / directory was hashed
+                below = [R.LINKS[t]] if t in R.LINKS else [f for f in R.FILES if f.startswith(t + "/")]
+                for f in below:
+                    try:
+                        fm = os.stat(w / f).st_mtime_ns
+                    except OSError:
+                        continue
+                    if fm not in hashed_at[f]:
+                        hashed_at[f].append(fm)
                 if mtime not in seen_mtimes:
                     seen_mtimes.append(mtime)
             else:
@@ -268,7 +281,33 @@ def run(sh):
         sh.handle(case, recs, raise_unattributed=True)
 
     steps = 12 if sh.quick else 30
-    sh.given(G.histories(max_steps=steps), body, sh.budget(800, 40000), tag="hist")
+    sh.given(G.histories(max_steps=steps), body, sh.budget(2400, 45000), tag="hist")
+    sh.given(restore_scenarios(), body, sh.budget(800, 15000), tag="restore")
+
+
+@st.composite
+def restore_scenarios(draw):
+    """Histories built around the pattern the statement singles out - hash, change the content,
+    put the timestamp back, hash again - observed through the file itself, a symbolic link to it
+    or the directory holding it, with other operations interleaved."""
+    f = draw(st.sampled_from(R.FILES))
+    views = [f] + [ln for ln, tgt in R.LINKS.items() if tgt == f] + [d for d in R.DIRS if f.startswith(d + "/")]
+    view = draw(st.sampled_from(views))
+    c0 = draw(st.integers(0, len(R.CONTENTS) - 1))
+    c1 = draw(st.integers(0, len(R.CONTENTS) - 1))
+    modes = st.sampled_from(G.HASH_MODES)
+    core = [["hash", view, draw(modes)], ["write", f, c1],
+            draw(st.sampled_from([["utime_seen", f, draw(st.integers(0, 3))],
+                                  ["utime_seen", view, draw(st.integers(0, 3))],
+                                  ["utime_abs", f, draw(st.integers(0, 2))]])),
+            ["hash", view, draw(modes)]]
+    noise = draw(G.histories(max_steps=4))
+    ops = list(core)
+    for op in noise["ops"]:
+        ops.insert(draw(st.integers(0, len(ops))), op)
+    init = dict(noise["init"])
+    init[f] = c0
+    return dict(init=init, links=noise.get("links", []), ops=ops)
 
 
 _ = Path
